@@ -130,6 +130,27 @@ CHECKS = {
         note="Trusted: TLC, renderer and source map (cross-checked by tree2ast), hook H2. Two unqualified imports of the same name are outside the domain.",
         technique="TLA+ state machine of name resolution vs declarative binding relation (TLC, Scopes family) + spec->impl replay comparing complete binding tables and evaluated markers",
     ),
+    "C17": dict(
+        design_ref="DESIGN.md 4 (C17)",
+        text="The binding relation of the Scopes family (RefTable in Resolve.tla, model-checked equal to the steps of resolve() in C08) "
+             "with RefsOf and the invariant Inverse in ResolveMC.tla is the oracle. For accepted members, rendered in four trivia styles "
+             "(multi-byte comments, CRLF), the real oal-lsp is asked definition and references at every UTF-16 position of every loaded "
+             "module, including positions past the end of lines; answers must be exactly the locations the binding relation gives "
+             "through the renderer's source map, empty elsewhere, and every returned reference must resolve back to the binder on the "
+             "real server.",
+        note="Trusted: TLC, renderer/source map, the JSON-RPC client, the Python position arithmetic (independent of unicode.rs). Sampled members in the quick tier.",
+        technique="binding relation model-checked in TLA+ (TLC) as oracle + exhaustive per-position replay of definition/references on the real oal-lsp",
+    ),
+    "C18": dict(
+        design_ref="DESIGN.md 4 (C18)",
+        text="The binding relation of the Scopes family (Resolve.tla / ResolveMC.tla, TLC) determines the expected edit set of a rename "
+             "(binder identifier plus every bound use in any loaded module; for a qualifier: the import's qualifier plus every qualified "
+             "use in that module). For accepted members the real oal-lsp is asked prepareRename at every UTF-16 position and rename "
+             "with a fresh name for every offered identifier: the server must stay alive, edits must not overlap and must equal the "
+             "expected set, and the edited sources compiled by the real compiler must be accepted and give the same document.",
+        note="Trusted: TLC, renderer/source map, JSON-RPC client, client-side edit application. @reference names are not in this family yet.",
+        technique="binding relation model-checked in TLA+ (TLC) as oracle + replay of prepareRename/rename on the real oal-lsp with compilation of the edited sources",
+    ),
 }
 
 PENDING_REASON = "check not built yet (work in progress; see DESIGN.md section 8 for the build order)"
